@@ -157,6 +157,16 @@ def directed_models(ctx, tmp):
           "G = FuzzyOr(InFieldNames = [F])", "D = AMinusB(A = A, B = W)"],
          {"W": a, "F": [-1.0, 0.5, 1.0, 1.0], "G": [-1.0, 0.5, 1.0, 1.0], "D": [0.0] * 4, "A": a}),
     ]
+    # values exactly ON a boundary of a definition (round 8: `<` for `<=`, the tie at the mean, a cell on a threshold / control point / category code):
+    # 1 2 3 4 5 has its mean, 3, among its cells; the halves of mean-to-mid are {1,2,3} and {4,5}, so the curve runs through (1,0) (2,.25) (3,.5) (4.5,.75) (5,1)
+    with open(os.path.join(tmp, "dm2.csv"), "w") as f:
+        f.write("t\n1\n2\n3\n4\n5\n")
+    t = [1.0, 2.0, 3.0, 4.0, 5.0]
+    models.append(
+        (['T = EEMSRead(InFileName = "dm2.csv", InFieldName = t)', "M = NormalizeMeanToMid(InFieldName = T, IgnoreZeros = False, NormalValues = [0, 0.25, 0.5, 0.75, 1])",
+          "B = CvtToBinary(InFieldName = T, Threshold = 3, Direction = LowToHigh)", "C = NormalizeCurve(InFieldName = T, RawValues = [2, 4], NormalValues = [0, 1])",
+          "Z = CvtToFuzzyMeanToMid(InFieldName = T, IgnoreZeros = False, FuzzyValues = [-1, -0.5, 0, 0.5, 1])"],
+         {"M": [0.0, 0.25, 0.5, 0.5 + 0.25 / 1.5, 1.0], "C": [0.0, 0.0, 0.5, 1.0, 1.0], "Z": [-1.0, -0.5, 0.0, 0.5 / 1.5, 1.0], "B": [0.0, 0.0, 1.0, 1.0, 1.0], "T": t}))
     for lines, want in models:
         for perm in itertools.permutations(lines):
             src = "\n".join(perm) + "\n"
